@@ -3,11 +3,15 @@
    Model: Schema/SdlPrint.v (print_schema, node_of_value) and Schema/SdlBuild.v
    (the way back).  Spec: Spec/SdlRoundtripSpec.v (block_string_value,
    printable, conforms, ast_of_schema, schema_okb).  Proofs:
-   Proofs/SdlPrintProofs.v.  Statements only. *)
+   Proofs/SdlPrintProofs.v, SdlTextProofs.v, SdlTextSchemaProofs.v (text =
+   print_ast of C03), SdlDocRoundtripProofs.v (document -> schema),
+   SdlValidInvProofs.v, SdlDocRulesProofs.v (the document obeys the rules),
+   SdlTextRoundtripProofs.v (composition).  Statements only. *)
 From PyGql Require Import Lang.PrinterModel Spec.PrinterSpec Proofs.PrinterSdlRoundtrip.
 From PyGql Require Import Run.Driver Spec.SdlSpec Schema.SdlPrint Schema.SdlIntro Spec.SdlRoundtripSpec
      Proofs.SdlPrintProofs Proofs.SdlTextProofs Lang.Parser.
-From PyGql Require Import Proofs.SdlTextSchemaProofs Proofs.SdlDocRoundtripProofs Proofs.SdlTextRoundtripProofs.
+From PyGql Require Import Proofs.SdlTextSchemaProofs Proofs.SdlDocRoundtripProofs Proofs.SdlValidInvProofs
+     Proofs.SdlDocRulesProofs Proofs.SdlTextRoundtripProofs.
 From Coq Require Import Lia.
 
 (* ---- full-strength statements (kept visible) -------------------------- *)
@@ -19,14 +23,17 @@ Definition C12_description_roundtrip_full : Prop :=
     block_string_value (unescape_triple (description_body o desc depth)) = desc.
 
 (* the document a SDL-expressible schema prints to builds an equivalent schema *)
-(* (false as it stands: C12_members_roundtrip_refuted) *)
+(* (false as it stands: C12_members_roundtrip_refuted; with the guards that
+   exclude the open findings it is C12_members_roundtrip_guarded) *)
 Definition C12_members_roundtrip_full : Prop :=
   forall sc, schema_okb sc = true -> members_roundtrip sc = true.
 
 (* text level: parse (print s) builds s, and printing that again gives the
-   same text; [parse] is the parser model of C01 -- until it is composed, this
-   rests on the correspondence (printed text equal to the model's, accepted by
-   the real parser, rebuilt dump equal, second print equal) *)
+   same text; [parse] is the parser model of C01.  Proved for schemas without
+   descriptions / defaults / applied custom directives (C12_fixpoint_partial);
+   beyond that it rests on the correspondence (printed text equal to the
+   model's, accepted by the real parser, rebuilt dump equal, second print
+   equal) *)
 Definition C12_roundtrip_full (parse : str -> outcome document) : Prop :=
   forall o sc text,
     schema_okb sc = true -> po_introspection o = false ->
@@ -178,9 +185,7 @@ Print Assumptions C12_text_parse_partial.
    that coerces back ([default_rt]; C12_default_roundtrip_partial gives that
    for conforming values, it fails exactly for the open finding
    custom-scalar-numeric-string-default), then the builder returns the
-   declared schema and that is equivalent to the schema printed.  What
-   C12_members_roundtrip_full still lacks is therefore only:
-   schema_okb sc -> sdl_rules_ok (document of sc). *)
+   declared schema and that is equivalent to the schema printed. *)
 Theorem C12_members_roundtrip_document : forall sc d,
   schema_okb sc = true -> ast_of_schema sc = Ok d ->
   (forall a, In a (schema_ivalues sc) -> default_rt (env_of_schema [] sc) (declared_env d) a) ->
@@ -191,10 +196,37 @@ Theorem C12_members_roundtrip_document : forall sc d,
 Proof. exact members_roundtrip_doc. Qed.
 Print Assumptions C12_members_roundtrip_document.
 
+(* the document of an SDL-expressible schema obeys the type-system rules of
+   C11: validity of a schema does not depend on the order of its types nor on
+   applied directives named like specified ones (validate_schema_perm,
+   validate_schema_strip in Proofs/SdlValidInvProofs.v), references, input
+   types, unique members, root operation types carry over *)
+Theorem C12_document_rules_ok : forall sc d,
+  schema_okb sc = true -> ast_of_schema sc = Ok d ->
+  (forall a, In a (schema_ivalues sc) -> default_rt (env_of_schema [] sc) (declared_env d) a) ->
+  sdl_rules_ok d.
+Proof. exact ast_rules_ok. Qed.
+Print Assumptions C12_document_rules_ok.
+
+(* C12_members_roundtrip_full with its guards: the complements of the open
+   findings -- [default_rt] (custom-scalar-numeric-string-default: given by
+   C12_default_roundtrip_partial for conforming values) and [defaults_stable]
+   of the emitted document (the two open findings of C11) *)
+Theorem C12_members_roundtrip_guarded : forall sc d,
+  schema_okb sc = true -> ast_of_schema sc = Ok d ->
+  (forall a, In a (schema_ivalues sc) -> default_rt (env_of_schema [] sc) (declared_env d) a) ->
+  defaults_stable d ->
+  sdl_rules_ok d
+  /\ build_model (BOpts true []) d = Ok (declared d)
+  /\ roundtrip_equiv (declared d) sc = true
+  /\ members_roundtrip sc = true.
+Proof. exact members_roundtrip_guarded. Qed.
+Print Assumptions C12_members_roundtrip_guarded.
+
 (* C12_roundtrip for plain schemas, through the parser model: parse (print s)
    builds a schema equivalent to s ... *)
 Theorem C12_text_roundtrip_partial : forall intro spec o fl sc text,
-  plain_schema sc -> valid_locations sc -> schema_okb sc = true -> sdl_rules_ok (doc_of sc) ->
+  plain_schema sc -> valid_locations sc -> schema_okb sc = true ->
   po_introspection o = false ->
   no_location fl = true -> allow_type_system fl = true -> all_ws (po_indent o) ->
   print_schema intro spec o sc = Ok text ->
@@ -208,7 +240,7 @@ Print Assumptions C12_text_roundtrip_partial.
 (* ... and printing the rebuilt schema gives the same text (C12_roundtrip_full
    restricted to plain schemas, with the equivalence added) *)
 Theorem C12_fixpoint_partial : forall intro spec o fl sc text,
-  plain_schema sc -> valid_locations sc -> schema_okb sc = true -> sdl_rules_ok (doc_of sc) ->
+  plain_schema sc -> valid_locations sc -> schema_okb sc = true ->
   po_introspection o = false ->
   no_location fl = true -> allow_type_system fl = true -> all_ws (po_indent o) ->
   print_schema intro spec o sc = Ok text ->
